@@ -184,3 +184,27 @@ pub fn in_domain(map: &Beatmap) -> bool {
         _ => true,
     })
 }
+
+/// Conversion-focused battery for longer maps: every conversion entry point, difficulty and a gradual walk for every
+/// reachable mode, mania under each of the given key mods. Returns a digest.
+pub fn run_conversions(map: &Beatmap, key_mods: &[ModSpec], tick: &dyn Fn()) -> u64 {
+    let mut acc = 0u64;
+    for dst in targets(map) {
+        let mode = gen::game_mode(dst);
+        let mods_list: Vec<ModSpec> = if dst == 3 { std::iter::once(ModSpec::Bits(0)).chain(key_mods.iter().cloned()).collect() } else { vec![ModSpec::Bits(0), ModSpec::Bits(settings::HR)] };
+        for m in &mods_list {
+            let mods = m.build(mode);
+            let conv = map.clone().convert(mode, &mods).expect("reachable target");
+            tick();
+            let d = Difficulty::new().mods(mods);
+            let a = api::difficulty(&d, map, dst).expect("reachable target");
+            tick();
+            let n = api::gradual(d.clone(), map, dst).expect("reachable target").count();
+            tick();
+            let p = Performance::new(&conv).difficulty(d).accuracy(96.0).calculate();
+            tick();
+            acc = acc.wrapping_mul(31).wrapping_add(digest(&canon(&format!("{} {a:?} {n} {p:?}", conv.hit_objects.len()))));
+        }
+    }
+    acc
+}
